@@ -261,7 +261,7 @@ def c05(r):
             unpaused_since = None
         elif i in listener_play_at and unpaused_since is None:
             unpaused_since = i + 1 if i + 1 < len(r.ops) else None
-        if unpaused_since is not None and r.paused_at[i] and r.snapshots[i] is None:
+        if unpaused_since is not None and r.paused_at[i]:      # (live or terminated: play() ALWAYS leaves the process un-paused)
             out.append(F('c05-paused-after-play', 'play() leaves the process un-paused', dict(play_at=unpaused_since, at=i, ops=r.ops[:i + 1])))
             break
     return out
@@ -453,6 +453,10 @@ def c13(r):
     if p.state.value == 'excepted' and isinstance(p.exception(), UserExc) and p.exception().n == pm.EXC_VALUE_CODE:
         out.append(F('c13-resume-value-raised', 'after Wait(f) and resume(v), f(v) runs - whatever v is (here: an exception INSTANCE '
                      'passed as a plain value was raised instead of delivered)', dict(ops=r.ops)))
+    if p.state.value == 'excepted' and not isinstance(p.exception(), UserExc) and r.prog['kind'] == 'proc' \
+            and all(c['op'] in ('pause', 'play', 'resume', 'kill') for c in r.calls):
+        out.append(F('c13-library-exception:' + excname(p.exception()), 'a returned command / value decides what happens next (the process '
+                     'excepted with an exception that no step raised and no request caused)', dict(exception=repr(p.exception())[:200], ops=r.ops)))
     undisturbed = all(c['op'] in ('pause', 'play', 'resume') for c in r.calls)
     if tr and undisturbed:
         oc = fns[tr[-1][0]][1]
